@@ -369,20 +369,27 @@ def gen_precision_case(rng, N=None):
     N = N or rng.randint(2, 6)
     dim = rng.choice((2, 3))
     ht = rng.choice(("Ryd", "XY"))
-    ukind = rng.choice(("randn", "c6", "c3", "decades"))
+    ukind = rng.choice(("randn", "c6", "c3", "decades", "wide", "wide", "tails", "tails", "scaled", "scaled"))
+    base = rng.choice(("randn", "c6", "c3", "tails")) if ukind == "scaled" else ukind
+    factor = rng.choice([1e-9, 1e-12, 2.0 ** -37]) if ukind == "scaled" else 1.0
     U = [[0.0] * N for _ in range(N)]
     pos = [(rng.uniform(0, 6.0 * N ** 0.5), rng.uniform(0, 6.0 * N ** 0.5)) for _ in range(N)]
     for (i, j) in pairs(N):
-        if ukind == "randn":
+        if base == "randn":
             v = rng.gauss(0.0, 1.0) * rng.choice([1.0, 7.3, 0.011])
-        elif ukind == "decades":
+        elif base == "decades":
             v = rng.choice([-1, 1]) * 10 ** rng.uniform(-4, 4)
+        elif base == "wide":  # every coupling anywhere in 10^[-14, 6]
+            v = rng.choice([-1, 1]) * 10 ** rng.uniform(-14, 6)
+        elif base == "tails":  # O(1) neighbours, long-range tail of 1e-9 .. 1e-13
+            v = (rng.choice([-1, 1]) * rng.uniform(0.5, 20.0) if j == i + 1
+                 else rng.choice([-1, 1]) * 10 ** rng.uniform(-13, -9))
         else:
             r = max(math.dist(pos[i], pos[j]), 3.7)
-            v = 5420158.53 / r ** 6 if ukind == "c6" else rng.choice([-1, 1]) * 3700.0 / r ** 3
-        if rng.random() < 0.25:
+            v = 5420158.53 / r ** 6 if base == "c6" else rng.choice([-1, 1]) * 3700.0 / r ** 3
+        if rng.random() < (0.1 if base == "tails" else 0.25):
             v = 0.0
-        U[i][j] = U[j][i] = v
+        U[i][j] = U[j][i] = v * factor
     pat = [[i, j] for (i, j) in pairs(N) if U[i][j] != 0.0]
     fz = lambda: (rng.gauss(0, 1.3), rng.gauss(0, 0.7))
     seq = []
@@ -427,9 +434,9 @@ def property_check(ctx, case):
         ctx.violation(f"make_H/update_H raised {type(ex).__name__}: {ex}",
                       {"case": case, "finding_key": "make_H-raises"})
         return False
-    why = verbatim_check(case, factors, updated=True)
+    why = verbatim_check(case, factors, updated=True) or (interaction_checks(case) if _wants_ic(case) else None)
     if why:
-        ctx.violation(why, {"case": case, "finding_key": "mpo-coupling-lost-precision"})
+        ctx.violation(why, {"case": case, "finding_key": _verbatim_key(why)})
         return False
     want = dense_reference(case)
     err = float(np.abs(got - want).max())
@@ -448,6 +455,62 @@ def _dense_key(case, err):
     return "mpo-coupling-lost-precision" if err < 1e-5 * _h_scale(case) else "mpo-ne-dense-" + case["ht"]
 
 
+def _wants_ic(case):
+    """scale covariance / entrywise-relative checks: always on the precision stream and the corpus, on one
+    case in four elsewhere (cost)."""
+    if case["kind"] in ("precision", "corpus", "corpus-seq"):
+        return True
+    return sum(map(ord, json.dumps(case["U"]))) % 4 == 0
+
+
+def _verbatim_key(why):
+    if why.startswith("DROPPED"):
+        return "mpo-small-coupling-dropped"
+    return "mpo-interaction-wrong" if why.startswith("WRONG") else "mpo-coupling-lost-precision"
+
+
+def interaction_checks(case):
+    """On the bare make_H MPO (single-atom part zero):
+    (b) scale covariance: H(c U) == c H(U) EXACTLY for c = 2^k (power-of-two scaling commutes with every
+        float64 operation as long as nothing under/overflows);
+    (c) every entry of the contracted interaction part agrees with the dense reference to 1e-12 relative
+        to the sum of |U_ij| contributing to that entry (so a term that stands alone is compared relatively:
+        no small coupling may vanish behind an absolute tolerance)."""
+    import numpy as np
+
+    zero = {"omega": [0.0] * case["N"], "phi": [0.0] * case["N"], "delta": [0.0] * case["N"],
+            "noise": [[(0.0, 0.0)] * case["dim"] for _ in range(case["dim"])]}
+    base = {k: v for k, v in case.items() if k not in ("seq", "first_drive")}
+    base.update(zero)
+    H1 = contract_dense(impl_build(base, update=False)).numpy()
+    want = dense_reference(base)
+    absU = dict(base, U=[[abs(float(x)) for x in row] for row in base["U"]])
+    bound = np.abs(dense_reference(absU))
+    bad = np.abs(H1 - want) > 1e-12 * bound
+    if bad.any():
+        k = int(np.argmax(np.abs(H1 - want) / np.maximum(bound, 1e-300)))
+        r, c = divmod(k, H1.shape[1])
+        tag = "DROPPED" if abs(H1[r, c] - want[r, c]) <= 1e-6 else "WRONG"
+        return (f"{tag}: interaction part of the bare make_H MPO, entry ({r},{c}): MPO {complex(H1[r, c])!r}, dense "
+                f"reference {complex(want[r, c])!r} (entrywise-relative comparison, allowed 1e-12 x {bound[r, c]:.3g})")
+    mags = [abs(float(x)) for row in base["U"] for x in row if float(x) != 0.0]
+    if not mags:
+        return None
+    for kexp in (-40, -27, 20):
+        if not (1e-250 < min(mags) * 2.0 ** kexp and max(mags) * 2.0 ** kexp < 1e250):
+            continue
+        cc = 2.0 ** kexp
+        scaled = dict(base, U=[[float(x) * cc for x in row] for row in base["U"]])
+        Hc = contract_dense(impl_build(scaled, update=False)).numpy()
+        if not np.array_equal(Hc, cc * H1):
+            k = int(np.argmax(np.abs(Hc - cc * H1)))
+            r, c = divmod(k, H1.shape[1])
+            tag = "DROPPED" if abs(Hc[r, c] / cc - H1[r, c]) <= 1e-6 else "WRONG"
+            return (f"{tag}: scale covariance broken: make_H(2^{kexp} U) contracts to {complex(Hc[r, c])!r} at "
+                    f"({r},{c}) but 2^{kexp} x make_H(U) is {complex(cc * H1[r, c])!r} (must be exactly equal)")
+    return None
+
+
 def verbatim_check(case, factors, updated):
     """The MPO stores couplings verbatim: outside the drive slot every real/imaginary part of every factor
     entry is, bit for bit, one of 0, 1, 1/2, |U_ij| or 2|U_ij| of the float64 input, and every factor is
@@ -461,6 +524,15 @@ def verbatim_check(case, factors, updated):
             allowed.add(abs(float(x)))
             allowed.add(2.0 * abs(float(x)))
     arr = np.array(sorted(allowed), dtype=np.float64)
+    seen = np.unique(np.abs(np.concatenate(
+        [np.concatenate([f.real.numpy().ravel(), f.imag.numpy().ravel()]) for f in factors])))
+    N = case["N"]
+    for i in range(N):
+        for j in range(i + 1, N):
+            u = abs(float(case["U"][i][j]))
+            if u != 0.0 and not (np.isin(u, seen) or np.isin(2.0 * u, seen)):
+                return (f"DROPPED: the non-zero coupling U[{i}][{j}] = {case['U'][i][j]!r} of the input appears in no "
+                        f"factor of the MPO (neither |U| nor 2|U|, bit for bit)")
     for n, f in enumerate(factors):
         if f.dtype != torch.complex128:
             return f"factor {n} has dtype {f.dtype}, expected complex128"
@@ -501,9 +573,10 @@ def property_check_seq(ctx, case):
     for k, factors in enumerate(snaps):
         sc = step_case(case, k)
         got = contract_dense(factors).numpy()
-        why = verbatim_check(sc, factors, updated=True)
+        why = verbatim_check(sc, factors, updated=True) or (
+            interaction_checks(sc) if k == 0 and _wants_ic(case) else None)
         if why:
-            ctx.violation(why, {"case": case, "failing_call": k, "finding_key": "mpo-coupling-lost-precision"})
+            ctx.violation(why, {"case": case, "failing_call": k, "finding_key": _verbatim_key(why)})
             return False
         err = float(np.abs(got - dense_reference(sc)).max())
         lim = REL_DENSE * _h_scale(sc)
@@ -610,7 +683,10 @@ def run(ctx):
                 "zero/full/third-level-only/diagonal with a zero noise after a non-zero one, all-zero drives), "
                 "compared entry-by-entry and densely after EVERY call; plus a precision stream (generic float64 "
                 "couplings: randn, C6/r^6, C3/r^3 from random positions, +-10^[-4,4]; generic float drives/noise; "
-                "after make_H and after every update of a sequence). In ALL streams every entry outside the drive "
+                "+-10^[-14,6] mixed in one matrix, O(1) neighbours with 1e-9..1e-13 tails, whole matrices scaled by "
+                "1e-9/1e-12/2^-37; after make_H and after every update of a sequence), on which also: every input "
+                "coupling must appear bit for bit in the factors, make_H(2^k U) == 2^k make_H(U) exactly for "
+                "k=-40,-27,20, interaction part entrywise-relative vs dense reference. In ALL streams every entry outside the drive "
                 "slot must equal the model's exact value bit for bit, drive-slot entries within 1e-13 relative, the "
                 "dense contraction within 1e-12 relative to max(1,|inputs|), factors must be complex128; "
                 "a case is non-trivial when at least one pair interacts; distinct by input hash")
